@@ -232,6 +232,16 @@ func init() {
 			{Name: "C03_text", Expect: []string{"end", "denoted-instruction"}, Witnesses: 8, TerminationClaim: true,
 				Quick:    grid([]string{"dialect"}, []int{0, 1}),
 				Thorough: grid([]string{"dialect"}, []int{0, 1})},
+			// line-level denotation (lone operands with and without an explicit
+			// modifier, operand values) and the predefined constants: the
+			// harnesses are shared with C06 and C07
+			{Name: "C06_line", Expect: []string{"accepted", "rejected", "denoted-fields"}, Witnesses: 6,
+				Quick:    grid([]string{"M", "dialect", "op", "values"}, []int{8}, []int{0, 1}, []int{0, 1}, []int{1}),
+				Thorough: grid([]string{"M", "dialect", "op", "values"}, []int{8, 8000}, []int{0, 1}, []int{0, 1, 11}, []int{1})},
+			{Name: "C06_line", Expect: []string{"done"}, Witnesses: 6,
+				Quick:    grid([]string{"M", "dialect", "op"}, []int{8}, []int{0, 1}, seq(0, 16)),
+				Thorough: grid([]string{"M", "dialect", "op"}, []int{8, 8000}, []int{0, 1}, seq(0, 16))},
+			{Name: "C07_constants", Expect: []string{"end"}},
 		},
 	})
 	Properties = append(Properties, &PropertySpec{
@@ -247,6 +257,7 @@ func init() {
 				Quick:    grid([]string{"depth"}, []int{1}),
 				Thorough: grid([]string{"depth"}, []int{1})},
 			{Name: "C07_assert", Expect: []string{"accepted", "rejected"}},
+			{Name: "C07_equ", Expect: []string{"end", "nested-equ-value"}, Witnesses: 4},
 			{Name: "C07_constants", Expect: []string{"end"}},
 		},
 	})
@@ -318,6 +329,12 @@ func init() {
 			{Name: "C14_copy", Expect: []string{"end", "simulator-keeps-its-own-copy"}, Witnesses: 4,
 				Quick:    grid([]string{"M", "len", "capfactor"}, []int{5, 8}, []int{1, 3}, []int{1, 2, 4}),
 				Thorough: grid([]string{"M", "len", "capfactor"}, []int{3, 5, 8, 13}, []int{1, 2, 3}, []int{1, 2, 3, 4, 8})},
+			{Name: "C14_copy", Expect: []string{"end", "adding-does-not-touch-callers-data"}, Witnesses: 4,
+				Quick:    grid([]string{"M", "len", "capfactor", "wide"}, []int{5, 8}, []int{1, 3}, []int{1}, []int{1}),
+				Thorough: grid([]string{"M", "len", "capfactor", "wide"}, []int{3, 5, 8, 13}, []int{1, 2, 3}, []int{1, 2}, []int{1})},
+			{Name: "C14_history", Expect: []string{"end", "result-independent-of-earlier-assemblies"}, Witnesses: 4,
+				Quick:    grid([]string{"M"}, []int{8, 8000}),
+				Thorough: grid([]string{"M"}, []int{4, 8, 8000, 8192, 55440})},
 			{Name: "C14_maporder", Expect: []string{"end", "result-independent-of-map-order"}, Witnesses: 2,
 				Quick:    grid([]string{"maporder", "entry"}, seq(0, 11), []int{1, 2}),
 				Thorough: grid([]string{"maporder", "entry"}, seq(0, 47), []int{0, 1, 2, 3})},
@@ -338,8 +355,11 @@ func init() {
 				Quick:    grid([]string{"M", "legacy", "len", "op", "sym"}, []int{8, 8000}, []int{1}, []int{1}, []int{0, 1, 2, 3, 7, 10, 11, 12, 13, 14, 15}, []int{0}),
 				Thorough: grid([]string{"M", "legacy", "len", "op", "sym"}, []int{3, 8, 8000, 8001, 8192, 55440}, []int{1}, []int{1}, []int{0, 1, 2, 3, 7, 10, 11, 12, 13, 14, 15}, []int{0})},
 			{Name: "C16_listing", Expect: []string{"end", "listing-denotes-instruction"}, Witnesses: 4,
-				Quick:    grid([]string{"M", "legacy", "len", "op", "sym"}, []int{3, 8, 8000, 8001}, []int{0, 1}, []int{1, 2}, []int{1}, []int{1}),
+				Quick:    grid([]string{"M", "legacy", "len", "op", "sym"}, []int{3, 8, 8000, 8001, 55440}, []int{0, 1}, []int{1, 2}, []int{1}, []int{1}),
 				Thorough: grid([]string{"M", "legacy", "len", "op", "sym"}, []int{3, 8, 8000, 8001, 8192, 55440}, []int{0, 1}, []int{1, 2, 3}, []int{1, 2}, []int{1})},
+			{Name: "C16_listing", Expect: []string{"end", "listing-denotes-instruction"}, Witnesses: 4,
+				Quick:    grid([]string{"M", "legacy", "len", "op", "sym", "api"}, []int{8, 8000}, []int{0, 1}, []int{2}, []int{1}, []int{1}, []int{1}),
+				Thorough: grid([]string{"M", "legacy", "len", "op", "sym", "api"}, []int{3, 8, 8000, 8001, 55440}, []int{0, 1}, []int{1, 2, 3}, []int{1}, []int{1}, []int{1})},
 		},
 	})
 
@@ -370,8 +390,8 @@ func init() {
 		ID: "C17", UsesEvalModel: true,
 		Harnesses: []HarnessSpec{
 			{Name: "C17_main", WithCmd: true, Expect: []string{"end", "stdout-equals-tallies"}, Witnesses: 6,
-				Quick:    grid([]string{"warriors", "use88", "preset", "fixed", "maxRounds"}, []int{1, 2}, []int{0, 1}, []int{0}, []int{0, 9}, []int{2}),
-				Thorough: append(grid([]string{"warriors", "use88", "preset", "fixed", "maxRounds"}, []int{1, 2}, []int{0, 1}, []int{0}, []int{0, 8, 9, 11}, []int{3}), grid([]string{"warriors", "use88", "preset", "fixed", "maxRounds"}, []int{1, 2}, []int{0}, []int{1}, []int{0, 30}, []int{2})...)},
+				Quick:    append(grid([]string{"warriors", "use88", "preset", "fixed", "maxRounds"}, []int{1, 2}, []int{0, 1}, []int{0}, []int{0, 9}, []int{2}), grid([]string{"warriors", "use88", "preset", "fixed", "maxRounds"}, []int{2}, []int{0, 1}, []int{0}, []int{4, 11}, []int{2})...),
+				Thorough: append(grid([]string{"warriors", "use88", "preset", "fixed", "maxRounds"}, []int{1, 2}, []int{0, 1}, []int{0}, []int{0, 4, 5, 8, 9, 11, 12}, []int{3}), grid([]string{"warriors", "use88", "preset", "fixed", "maxRounds"}, []int{1, 2}, []int{0}, []int{1}, []int{0, 30}, []int{2})...)},
 		},
 	})
 }
